@@ -22,6 +22,7 @@
 #include <cstring>
 
 #include <queue>
+#include <vector>
 #include <ucontext.h>
 
 #include <tbox/base/log.h>
@@ -172,12 +173,30 @@ void Scheduler::cleanup()
     );
 
     //! 令已启动的协程尽快正常退出
+    //! 注意：协程在退出的过程中可能还会创建新的协程。所以每一轮都要先记下当前所有协程的token，
+    //! 再逐一处理：未启动的直接删除，已启动的标记取消后切换过去。
+    //! 否则新建的协程没有被标记取消，一旦它阻塞，这个循环就永远不会结束
     while (!d_->routine_cabinet.empty()) {
+        std::vector<RoutineToken> tokens;
         d_->routine_cabinet.foreach(
-            [this] (Routine *routine) {
-                switchToRoutine(routine);
+            [&tokens] (Routine *routine) {
+                tokens.push_back(routine->token);
             }
         );
+
+        for (const auto &token : tokens) {
+            Routine *routine = d_->routine_cabinet.at(token);
+            if (routine == nullptr)
+                continue;
+
+            if (!routine->is_started) {
+                d_->routine_cabinet.free(token);
+                delete routine;
+            } else {
+                routine->is_canceled = true;
+                switchToRoutine(routine);
+            }
+        }
     }
     //! 思考：为什么不能直接删除已启动的协程？
     //!
